@@ -678,6 +678,7 @@ func (dr *dirRepo) gc() error {
 			for _, dir := range []string{
 				filepath.Join(dr.path, uploadDir),
 				filepath.Join(dr.path, blobsDir, "sha256"),
+				filepath.Join(dr.path, blobsDir, "sha384"),
 				filepath.Join(dr.path, blobsDir, "sha512"),
 				filepath.Join(dr.path, blobsDir),
 				filepath.Join(dr.path, indexFile),
@@ -686,7 +687,9 @@ func (dr *dirRepo) gc() error {
 			} {
 				err := os.Remove(dir)
 				if err != nil && !errors.Is(err, fs.ErrNotExist) {
+					// stop at the first failure, a directory that still has content keeps its index and layout files
 					errs = append(errs, err)
+					break
 				}
 			}
 			return errors.Join(errs...)
